@@ -130,6 +130,17 @@ def run_task(prop, task_id, tier, seed):
     warnings.filterwarnings("ignore")
     os.environ.setdefault("JAX_PLATFORMS", "cpu")
     sys.path[:0] = [p for p in (ROOT, os.environ.get("VERIF_REPO", "/repo")) if p not in sys.path]
+    try:
+        from . import core as _core
+        _core.die_with_parent()
+    except Exception:
+        pass
+    try:  # `kill -USR1 <worker pid>` dumps the Python stack of a worker (development aid for slow tasks)
+        import faulthandler
+        import signal
+        faulthandler.register(signal.SIGUSR1, all_threads=False)
+    except Exception:
+        pass
     ctx = TaskContext(prop, task_id, tier, seed)
     try:
         mod = importlib.import_module("checks." + prop)
@@ -174,29 +185,63 @@ def main(argv=None):
     nw = a.workers or max(1, min(len(ids), ncpu - 2))
     results = []
     ctx = mp.get_context("spawn")
+    # watchdog: a check never hangs.  If the whole run exceeds the wall limit (VERIF_WALL_LIMIT seconds; default 45 min quick / 8 h thorough) the
+    # workers are killed and every unfinished task is reported as a CHECKER-ERROR (exit 3: undecided by the tool, never a violation).
+    limit = float(os.environ.get("VERIF_WALL_LIMIT", "2700" if tier == "quick" else "28800"))
     with cf.ProcessPoolExecutor(max_workers=nw, mp_context=ctx) as ex:
         futs = {ex.submit(run_task, prop, t, tier, seed): t for t in ids}
-        for f in cf.as_completed(futs):
-            t = futs[f]
-            try:
-                r = f.result()
-            except Exception as e:
-                r = {"task": t, "obligations": [], "problems": [], "bounded": [], "assumptions": [], "replaced": [],
-                     "errors": [{"title": t, "error": "worker died: " + repr(e)[:300]}], "wall_s": 0}
-            results.append(r)
-            nob = len([o for o in r["obligations"] if not o.get("canary")])
-            nd = len([o for o in r["obligations"] if not o.get("canary") and o["verdict"] == "unsat"])
-            print(f"[{prop}] task {t}: {nd}/{nob} discharged, {len(r['errors'])} errors, {r['wall_s']}s", flush=True)
+        done = set()
+        try:
+            for f in cf.as_completed(futs, timeout=limit):
+                t = futs[f]
+                done.add(t)
+                try:
+                    r = f.result()
+                except Exception as e:
+                    r = {"task": t, "obligations": [], "problems": [], "bounded": [], "assumptions": [], "replaced": [],
+                         "errors": [{"title": t, "error": "worker died: " + repr(e)[:300]}], "wall_s": 0}
+                results.append(r)
+                nob = len([o for o in r["obligations"] if not o.get("canary")])
+                nd = len([o for o in r["obligations"] if not o.get("canary") and o["verdict"] == "unsat"])
+                print(f"[{prop}] task {t}: {nd}/{nob} discharged, {len(r['errors'])} errors, {r['wall_s']}s", flush=True)
+        except cf.TimeoutError:
+            for t in ids:
+                if t not in done:
+                    results.append({"task": t, "obligations": [], "problems": [], "bounded": [], "assumptions": [], "replaced": [],
+                                    "errors": [{"title": t, "error": f"task not finished within the wall limit of {limit:.0f}s: killed (tool limit, not a verdict)"}], "wall_s": limit})
+                    print(f"[{prop}] task {t}: exceeded the wall limit, killed", flush=True)
+            for pr in list(getattr(ex, "_processes", {}).values()):
+                try:
+                    pr.kill()
+                except Exception:
+                    pass
+            ex.shutdown(wait=False, cancel_futures=True)
     # second chance for anything undecided (solver `unknown` / timeout / dead worker): the task is re-run alone, when the machine is quiet,
-    # with a 5x budget; a verdict must never flip because 16 cores were busy.  `sat` / `unsat` answers are never retried.
+    # with a 3x budget; a verdict must never flip because 16 cores were busy.  `sat` / `unsat` answers are never retried.
     def _shaky(r):
         return any(o["verdict"] not in ("unsat", "sat") for o in r["obligations"]) or any("worker died" in e["error"] or "task crashed" in e["error"] for e in r["errors"])
-    retry = [r["task"] for r in results if _shaky(r)][:6]
+    # (only when few obligations of the task are open: a tree on which many queries time out is not helped by waiting 3x longer for each)
+    def _few(r):
+        return len([o for o in r["obligations"] if o["verdict"] not in ("unsat", "sat")]) <= 4
+    retry = [r["task"] for r in results if _shaky(r) and _few(r) and not any("wall limit" in e["error"] for e in r["errors"])][:6]
     if retry:
-        os.environ["VERIF_BUDGET_SCALE"] = str(5 * float(os.environ.get("VERIF_BUDGET_SCALE", "1")))
+        os.environ["VERIF_BUDGET_SCALE"] = str(3 * float(os.environ.get("VERIF_BUDGET_SCALE", "1")))
         with cf.ProcessPoolExecutor(max_workers=2, mp_context=ctx) as ex:
             futs = {ex.submit(run_task, prop, t, tier, seed): t for t in retry}
-            for f in cf.as_completed(futs):
+            it = cf.as_completed(futs, timeout=max(60.0, limit - (time.time() - t0)))
+            while True:
+                try:
+                    f = next(it)
+                except StopIteration:
+                    break
+                except cf.TimeoutError:   # the retry is a courtesy: past the wall limit the first verdicts stand
+                    for pr in list(getattr(ex, "_processes", {}).values()):
+                        try:
+                            pr.kill()
+                        except Exception:
+                            pass
+                    ex.shutdown(wait=False, cancel_futures=True)
+                    break
                 t = futs[f]
                 try:
                     r2 = f.result()
@@ -206,7 +251,7 @@ def main(argv=None):
                         [o for o in next(r for r in results if r["task"] == t)["obligations"] if o["verdict"] == "unsat"]):
                     r2["retried"] = True
                     results = [r for r in results if r["task"] != t] + [r2]
-                    print(f"[{prop}] task {t}: retried with 5x budget, {len([o for o in r2['obligations'] if o['verdict'] not in ('unsat', 'sat')])} undecided left", flush=True)
+                    print(f"[{prop}] task {t}: retried with 3x budget, {len([o for o in r2['obligations'] if o['verdict'] not in ('unsat', 'sat')])} undecided left", flush=True)
     results.sort(key=lambda r: r["task"])
     return finish(prop, tier, seed, mod, results, time.time() - t0, a)
 
